@@ -134,7 +134,11 @@ def is_recursive(
 ) -> bool:
     cache, rec_key = recursion_cache(checker_cls), (tp, conversion)
     if rec_key not in cache:
-        checker_cls(default_conversion).visit_with_conv(tp, conversion)
+        checker = checker_cls(default_conversion)
+        checker.visit_with_conv(tp, conversion)
+        # lru_cache can give distinct dicts to the threads which are the first to call
+        # recursion_cache concurrently: result must be read where the checker wrote it
+        cache = checker._cache
     return cache[rec_key]
 
 
